@@ -181,8 +181,88 @@ func c09born(c *core.Ctx) {
 	}
 }
 
+// a case that held a list (or a container) and lost all of it again holds no data: the next upsert of another case
+// shows, on every backend
+func c09emptied(c *core.Ctx) {
+	y := `module em { namespace "urn:em"; prefix em; revision 2020-01-01;
+  container top { choice ch { case a { list la { key k; leaf k { type string; } } container ca { leaf x { type string; } } leaf-list al { type string; } } case b { leaf lb { type string; } } } } }`
+	m, err := parser.LoadModuleFromString(nil, y)
+	if err != nil {
+		c.Violation(core.Replay{Kind: "harness", Summary: "c09emptied module: " + err.Error(), NoInputFound: true})
+		return
+	}
+	type step struct{ op, arg, want string }
+	steps := []step{
+		{"upsert", `{"top":{"la":[{"k":"1"},{"k":"2"}]}}`, `{"top":{"la":[{"k":"1"},{"k":"2"}]}}`},
+		{"delete", "top/la=1", `{"top":{"la":[{"k":"2"}]}}`},
+		{"delete", "top/la=2", `{"top":{}}`},
+		{"upsert", `{"top":{"lb":"v"}}`, `{"top":{"lb":"v"}}`},
+		{"upsert", `{"top":{"ca":{"x":"1"}}}`, `{"top":{"ca":{"x":"1"}}}`},
+		{"delete", "top/ca", `{"top":{}}`},
+		{"upsert", `{"top":{"lb":"w"}}`, `{"top":{"lb":"w"}}`},
+		{"upsert", `{"top":{"la":[{"k":"3"}]}}`, `{"top":{"la":[{"k":"3"}]}}`},
+		{"delete", "top/la", `{"top":{}}`},
+		{"upsert", `{"top":{"lb":"z"}}`, `{"top":{"lb":"z"}}`},
+	}
+	for _, backend := range []string{"reflect-map", "node-map", "refstore"} {
+		data := map[string]interface{}{}
+		var root node.Node
+		switch backend {
+		case "reflect-map":
+			root = nodeutil.ReflectChild(data)
+		case "node-map":
+			root = &nodeutil.Node{Object: data}
+		default:
+			kids := []*gen.SNode{{Name: "top", Kind: "cont", Kids: []*gen.SNode{{Name: "ch", Kind: "choice", Cases: []*gen.SCase{
+				{Name: "a", Kids: []*gen.SNode{{Name: "la", Kind: "list", NKeys: 1, Kids: []*gen.SNode{{Name: "k", Kind: "leaf", Type: "string"}}}, {Name: "ca", Kind: "cont", Kids: []*gen.SNode{{Name: "x", Kind: "leaf", Type: "string"}}}, {Name: "al", Kind: "leaf", Type: "string", LeafList: true}}},
+				{Name: "b", Kids: []*gen.SNode{{Name: "lb", Kind: "leaf", Type: "string"}}}}}}}}
+			root = refstore.NewBody(nil, kids, gen.EmptyBody(kids), "")
+		}
+		b := node.NewBrowser(m, root)
+		var hist []string
+		for i, st := range steps {
+			hist = append(hist, st.op+" "+st.arg)
+			var got string
+			e := safeDo(func() error {
+				if st.op == "upsert" {
+					src, err := nodeutil.ReadJSON(st.arg)
+					if err != nil {
+						return err
+					}
+					if err := b.Root().UpsertFrom(src); err != nil {
+						return err
+					}
+				} else {
+					sel, err := b.Root().Find(st.arg)
+					if err != nil || sel == nil {
+						return fmt.Errorf("find %s: %v", st.arg, err)
+					}
+					if err := sel.Delete(); err != nil {
+						return err
+					}
+				}
+				var err error
+				got, err = nodeutil.WriteJSON(b.Root())
+				return err
+			})
+			if e != nil {
+				got = "error " + short(e.Error())
+			}
+			c.Evaluations++
+			c.Count("emptied_case", backend)
+			c.Distinct(fmt.Sprint("emptied ", backend, i))
+			if got != st.want {
+				c.Violation(core.Replay{Kind: "property-failure", Class: "emptied-case-" + backend, Summary: fmt.Sprintf("%s after %v: the store reads %s, want %s", backend, hist, got, st.want),
+					Input: map[string]interface{}{"yang": y, "backend": backend, "history": append([]string{}, hist...), "store": fmt.Sprint(data)}, Impl: got, Spec: st.want})
+				break
+			}
+		}
+	}
+}
+
 func C09(c *core.Ctx) {
 	c09born(c)
+	c09emptied(c)
 	c.Rule = "generated schemas with several choices per container, choices nested in cases, shorthand cases, choices inside containers and inside a list entry; histories of 1–8 upserts that alternate between cases and switch back, from 3 source implementations into the reference store, reflection over maps and nodeutil.Node; after every step the complete target (re-read independently) is compared with the Lean model and the at-most-one-case invariant is checked on the real store; reads of stores that hold two cases are compared with the model's read; steps into the reference store are repeated with one node callback of the target failing (every position for short steps, a sample otherwise): whatever the call returns the store must still satisfy the invariant. non-trivial = step whose source writes into a choice that already has another case selected; distinct by (schema, history prefix, implementations)"
 	c.Assumptions = append(c.Assumptions,
 		"the model covers leaves, containers and choices; lists enter only as the entry a history edits",
